@@ -37,6 +37,7 @@ LEVEL = "exploration"
 ALPHA_CHI2 = 1e-12
 MAX_CHI2_TESTS = 500
 TOL = 1e-9
+SINGLE_KEY = "get_p:python_float_arguments:single_precision"
 
 
 def _quiet():
@@ -164,19 +165,21 @@ def part_lattice(ctx, rng):
 # scenarios -> masses
 # ==========================================================================
 def leaf_masses(pat):
+    """dyadic rationals (exactly representable in single precision, see notes: get_p converts python floats
+    through float32; with dyadic masses the strict tolerance applies to every generator without a two-body node)"""
     out = []
     for i, c in enumerate(pat):
-        out.append({"z": 0.0, "l": 0.1 + 0.013 * i, "h": 1.0 + 0.11 * i}[c])
+        out.append({"z": 0.0, "l": 0.125 + i / 64.0, "h": 1.0 + i / 8.0}[c])
     return out
 
 
 def build_struct(scen):
-    """-> (m0, mi) for ChainGenerator, list of node records [(path, mass, nt)], leaf masses"""
+    """-> (m0, mi) for ChainGenerator, leaf masses"""
     lm = leaf_masses(scen["pat"])
     S0 = sum(lm)
     nnodes = len(scen["flat"])
-    qtot = {"thr": 2e-3, "mid": 0.6, "big": 8.0}[scen["q"]] * (S0 + 0.5)
-    qe = qtot / nnodes
+    qtot = {"thr": 2.0**-9, "mid": 0.625, "big": 8.0}[scen["q"]] * (S0 + 0.5)
+    qe = float(max(np.floor(qtot / nnodes * 4096) / 4096, 2.0**-12))
     it = iter(lm)
 
     def rec(shape):
@@ -184,7 +187,7 @@ def build_struct(scen):
             return next(it)
         kids = [rec(c) for c in shape]
         m = sum(k if not isinstance(k, tuple) else k[0] for k in kids) + qe
-        return (m, kids)
+        return (float(m), kids)  # python floats, as ConfigLoader / gen_mc pass them
 
     top = rec(scen["shape"])
     return top[0], top[1], lm
@@ -249,7 +252,7 @@ class Runner:
         self.traces.append(S.phsp_trace(N, log))
         return m0, mi, lm, res, log
 
-    def physical(self, key, scen, N, m0, mi, lm, res):
+    def physical(self, key, scen, N, m0, mi, lm, res, dyadic=True):
         ctx = self.ctx
         leaves = flat_leaves(res)
         if len(leaves) != len(lm) or any(p.shape != (N, 4) for p in leaves):
@@ -283,10 +286,11 @@ class Runner:
             worst["node_mass_%d" % j] = float(np.max(dd[ok])) if ok.any() else 0.0
         bad = {k: v for k, v in worst.items() if not (v <= TOL * m0)}
         if bad:
-            if has2 and all(v <= 1e-6 * m0 for v in bad.values()):
-                # break-up momentum of a two-body node evaluated in single precision (python-float masses in get_p)
+            if (has2 or not dyadic) and all(v <= 1e-6 * m0 for v in bad.values()):
+                # get_p evaluates python-float arguments in single precision: every two-body generator, and every
+                # generator whose parent mass is not representable in float32, is accurate to ~1e-8 only
                 self.single_precision_hits += 1
-                ctx.violation("two_body_node:break_up_momentum_single_precision", {"scenario": scen_key(scen), "m0": m0, "struct": repr(mi), "N": N, "deviations": bad})
+                ctx.violation(SINGLE_KEY, {"scenario": scen_key(scen), "m0": m0, "struct": repr(mi), "N": N, "deviations": bad, "tolerance": TOL * m0})
             else:
                 ctx.violation(key + ":physical:N=%d" % N, {"m0": m0, "struct": repr(mi), "deviations": bad, "tolerance": TOL * m0})
         return leaves
@@ -329,7 +333,8 @@ def part_scenarios(ctx, scen, rng, runner):
     for s in chosen:
         key = scen_key(s)
         n = s["leaves"]
-        sizes = [1, 7, 1000]
+        t0 = __import__("time").time()
+        sizes = [1, 7, 1000] if (n < 6 or not quick) else [1, 7, 100]  # n = 6: acceptance ~3e-5
         for N in sizes:
             for direct in ([False, True] if len(s["flat"]) == 1 and N == 7 else [False]):
                 try:
@@ -342,6 +347,9 @@ def part_scenarios(ctx, scen, rng, runner):
                 nruns += 1
                 ctx.count(N, distinct_key=key)
                 runner.physical(key, s, N, m0, mi, lm, res)
+        dt = __import__("time").time() - t0
+        if dt > 3:
+            ctx.log("slow scenario %.1fs %s" % (dt, key))
     ctx.part("scenarios", chosen=len(chosen), runs=nruns, events=runner.nevents, ill_conditioned_events_skipped=runner.illcond)
     if chosen:
         s = chosen[len(chosen) // 2]
@@ -510,22 +518,24 @@ def part_flat(ctx, scen, rng, runner):
         (find(4, "zzzz", "big"), 100000),
         (find(4, "hhhh", "thr"), 100000),
         (find(5, "lzhlh", "mid"), 30000),
-        (find(5, "lllll", "big"), 30000),
-        (find(6, "lhzlhz", "mid"), 10000),
     ]
     if not quick:
+        plan.append((find(5, "lllll", "big"), 30000))
+        plan.append((find(6, "lhzlhz", "mid"), 5000))
         extra = [s for s in flat if s["leaves"] in (3, 4)]
         for i in rng.permutation(len(extra))[:16]:
             plan.append((extra[i], 100000))
         extra = [s for s in flat if s["leaves"] == 5]
         for i in rng.permutation(len(extra))[:4]:
             plan.append((extra[i], 30000))
-        plan.append((find(6, "zzzzzz", "mid"), 10000))
+        plan.append((find(6, "hhhhhh", "thr"), 5000))
         plan.append((find(3, "lhl", "mid"), 1000000))
     results = []
     for s, N in plan:
         key = scen_key(s)
+        t0 = __import__("time").time()
         m0, mi, lm, res, log = runner.generate(s, N, direct=True)
+        ctx.log("flat sample %s N=%d generated in %.1fs" % (key, N, __import__("time").time() - t0))
         leaves = runner.physical(key, s, N, m0, mi, lm, res)
         ctx.count(N, distinct_key=("flat", key))
         if leaves is None:
@@ -621,8 +631,8 @@ def part_apps(ctx):
                 dev["on_shell_%d" % j] = float(np.max(np.abs(p[:, j, 0] - np.sqrt(np.sum(p[:, j, 1:] ** 2, axis=1) + m * m))))
             bad = {k: v for k, v in dev.items() if not v <= TOL * m0}
             if bad:
-                if len(ms) == 2 and all(v <= 1e-6 * m0 for v in bad.values()):
-                    ctx.violation("two_body_node:break_up_momentum_single_precision", {"call": "gen_mc(%g, %s, %d)" % (m0, ms, N), "deviations": bad})
+                if all(v <= 1e-6 * m0 for v in bad.values()):
+                    ctx.violation(SINGLE_KEY, {"call": "gen_mc(%g, %s, %d)" % (m0, ms, N), "deviations": bad, "tolerance": TOL * m0})
                 else:
                     ctx.violation(key + ":physical", {"N": N, "deviations": bad})
     config = ConfigLoader(copy.deepcopy(MODEL4))
@@ -649,7 +659,7 @@ def part_apps(ctx):
         bad = {k: v for k, v in dev.items() if not v <= TOL * 3.0}
         if bad:
             if all(v <= 1e-6 * 3.0 for v in bad.values()):
-                ctx.violation("two_body_node:break_up_momentum_single_precision", {"call": "ConfigLoader.generate_phsp_p", "deviations": bad})
+                ctx.violation(SINGLE_KEY, {"call": "ConfigLoader.generate_phsp_p (A -> (R_BC -> B C) D E, m(R_BC) fixed)", "deviations": bad, "tolerance": TOL * 3.0})
             else:
                 ctx.violation(key + ":physical", {"deviations": bad})
     ctx.part("applications", gen_mc_calls=9, generate_phsp_p_calls=3)
@@ -693,7 +703,24 @@ def part_traces(ctx, runner):
             raise tlc.MachineryError("binding demonstration failed: corrupted n-body traces accepted")
 
 
+def _rss_monitor(ctx):
+    import threading
+    import time
+
+    def mon():
+        while True:
+            for l in open("/proc/self/status"):
+                if l.startswith("VmRSS"):
+                    ctx.log("rss %.2f GB" % (int(l.split()[1]) / 1e6))
+            time.sleep(5)
+
+    threading.Thread(target=mon, daemon=True).start()
+
+
 def run(ctx):
+    if os.environ.get("C10_DEBUG_RSS"):
+        _rss_monitor(ctx)
+    S.tame_malloc()
     rng = np.random.default_rng(ctx.seed)
     scen = part_spec(ctx)
     part_lattice(ctx, rng)
@@ -702,6 +729,7 @@ def run(ctx):
     chosen = part_scenarios(ctx, scen, rng, runner)
     ctx.log("scenarios done")
     part_weights(ctx, chosen, rng)
+    ctx.log("weights done")
     part_flat(ctx, scen, rng, runner)
     ctx.log("flatness done")
     part_apps(ctx)
